@@ -509,7 +509,9 @@ BATTERY = ["a eq 1", "a eq 1 and b ne 'x' or not (c lt 2)", "a in (1, 2, 3)", "x
            "Name eq 1", "a eq Name", "matchesPattern(a, 'x')", "matchespattern(a, 'x')", "Geo.Length(x) gt 1", "geo.length(x) gt 1",
            "a eq 1 and", "xs/all(x: x/Name eq Name)", "now() gt d", "now( ) gt d",
            "geo.distance(a, b) lt 5", "distance(a, b) lt 5", "geo.contains(a, 'x')", "contains(a, 'x')", "substring(a, 1)", "geo.substring(a, 1, 2, 3)",
-           "x/b/c eq 1", "y/b/c/e eq 2", "a/b/c eq null", "xs/any(x: x/b/c/d eq 1)", "q/b eq 1"]
+           "x/b/c eq 1", "y/b/c/e eq 2", "a/b/c eq null", "xs/any(x: x/b/c/d eq 1)", "q/b eq 1",
+           # two different errors in one input: the first one met aborts the parse, whatever was noted for the other must not survive
+           "nosuchfunc(1) eq", "substring('a') and (", "nosuchfunc(1) eq #", "now(1) )", "xs/any(x: nosuchfunc(x) eq", "a in (1, length(a, b), #"]
 
 
 def bounded_hashseed(facts, tier):
